@@ -15,11 +15,13 @@
 //       find_enclosing_function / is_inside_function (test-only API): exact; regular parameters ONLY, no class recursion
 //   L2  prelude/completion_ctx_l2.rs (lemma_C18_*), 5 proof canaries + 1 exec canary (@as) below.
 // ASSUMED here (each stated at its stub):
-//   A-cc1 find_signature_end_line is a function `sig_end_line` of its arguments (AST ranges + text scan: not under contract)
+//   A-cc1 (discharged) find_signature_end_line: `sig_end_line` IS op_sig_end (prelude/sigend_spec.rs), the contract PROVED for
+//         the real body in unit sig_end (//@stub sig_end); it needs line_index.len() + 10 <= usize::MAX (unchecked `+ 10`)
 //   A-cc2 get_completion_context_from_text is a function `text_ctx` of (text, line) (text scanner 628-986: not under contract)
 //   A-cc3 `name.as_str().starts_with("test_")` is a function `is_test_name` of the name's text
 //   A-cc4 get_file_content / get_parsed_ast / get_line_index: functions of (database state, path) / the text / the text;
-//         the line index handed out IS a line index (PROVED for build_line_index in unit line_index)
+//         the line index handed out IS a line index (PROVED for build_line_index in unit line_index) and has at most
+//         usize::MAX - 10 entries (true of every Vec<usize>; Verus has no bound on slice lengths)
 //   A-cc5 `Ranged::range` of Expr / Stmt is a function of the node (expr_range / stmt_range)
 //   A-cc6 std shims (prelude/completion_shims.rs): `a.chain(b)` yields a's then b's elements; `slice.iter().any(f)` for an
 //         f callable on the elements only; `slice.iter().rev().find_map(f)` (unused by /repo; decides the "last wins" variant)
@@ -53,6 +55,8 @@ use super::*;
 //@include prelude/ast_spec.rs
 //@include prelude/line_spec.rs
 //@include prelude/completion_ctx_spec.rs
+//@include prelude/sigend_spec.rs
+//@include prelude/sigend_l2.rs
 //@include prelude/completion_ctx_l2.rs
 //@include prelude/completion_shims.rs
 //@include prelude/position_containing.rs
@@ -84,12 +88,7 @@ broadcast use {axiom_string_to_string, axiom_identifier_to_string, vstd::std_spe
 impl FixtureDatabase {
 //@stub line_index get_line_from_offset
 
-    /// callee stub: AST ranges + text scan for the trailing ':' (resolver.rs find_signature_end_line), result left abstract
-    #[verifier::external_body]
-    fn find_signature_end_line(&self, func_start_line: usize, args: &Arguments, returns: &Option<Box<Expr>>, body: &[Stmt],
-                               content: &str, line_index: &[usize]) -> (r: usize)
-        ensures r == sig_end_line(func_start_line, *args, *returns, body@, content@, line_index@)
-    { unimplemented!() }
+//@stub sig_end find_signature_end_line
 
     // ---- callee contracts ASSUMED here (memoised environment reads; the memo tables themselves: unit memo) -----------
     /// the text of a file (file_cache entry, else the file system): some function of the path at the time of the call
@@ -106,7 +105,7 @@ impl FixtureDatabase {
     /// build_line_index in unit line_index)
     #[verifier::external_body]
     pub(crate) fn get_line_index(&self, file_path: &Path, content: &str) -> (r: Arc<Vec<usize>>)
-        ensures (*r)@ == src_line_index(content@), is_line_index(ints((*r)@))
+        ensures (*r)@ == src_line_index(content@), is_line_index(ints((*r)@)), (*r)@.len() + 10 <= usize::MAX
     { unimplemented!() }
     /// the text fallback (resolver.rs 628-986), result left abstract
     #[verifier::external_body]
@@ -242,7 +241,7 @@ impl FixtureDatabase {
 @wrapexpr 1 `func_name.as_str().starts_with("test_")` => `Self::vp_is_test(func_name)` with fn vp_is_test(func_name: &Identifier) -> (r: bool) ensures r == is_test_name(idv(func_name))
 @closure map:1 |arg: &ArgWithDefault| -> (s: String) ensures s@ == pname(*arg)
 @sig
-    requires is_line_index(ints(line_index@)),
+    requires is_line_index(ints(line_index@)), line_index@.len() + 10 <= usize::MAX,
     ensures opt_ccv(r) == spec_func_ctx(*func_name, decorator_list@, *args, *returns, body@, range, content@, target_line, line_index@),
 @after is_fixture 1
     proof {
@@ -274,7 +273,7 @@ impl FixtureDatabase {
 @wrapexpr 1 `func_name.as_str().starts_with("test_")` => `Self::vp_is_test2(func_name)` with fn vp_is_test2(func_name: &Identifier) -> (r: bool) ensures r == is_test_name(idv(func_name))
 @closure map:1 |arg: &ArgWithDefault| -> (s: String) ensures s@ == pname(*arg)
 @sig
-    requires is_line_index(ints(line_index@)),
+    requires is_line_index(ints(line_index@)), line_index@.len() + 10 <= usize::MAX,
     ensures match opt_ccv(r) { Some(CtxV::Func(f)) => f.declared == args.args@.map_values(pname_fn()), _ => true },
 @after is_fixture 1
     proof {
@@ -338,12 +337,12 @@ impl FixtureDatabase {
 @tags C18 C12
 @ret r
 @sig
-    requires is_line_index(ints(line_index@)),
+    requires is_line_index(ints(line_index@)), line_index@.len() + 10 <= usize::MAX,
     ensures opt_ccv(r) == spec_first_ctx(stmts@, content@, target_line, line_index@),
     decreases stmts@,
 @loopvar 1 it
 @loop 1
-    invariant it.seq() == stmts@.as_ref(), is_line_index(ints(line_index@)),
+    invariant it.seq() == stmts@.as_ref(), is_line_index(ints(line_index@)), line_index@.len() + 10 <= usize::MAX,
         fc_from(stmts@, 0, content@, target_line, line_index@) == fc_from(stmts@, it.index@ as int, content@, target_line, line_index@),
 @loopstart 1
     proof { let i = it.index@ as int; assert(*stmt == stmts@[i]);
@@ -352,6 +351,34 @@ impl FixtureDatabase {
 @*/
 }
 } // mod resolver
+
+// ---- composition with unit sig_end (sig_end_line IS op_sig_end here: no hypothesis about it left) --------------------------
+/// C18 / C17: in a test / fixture whose last signature element ends on or below the def line and above the first body
+/// statement, the cursor on the first body line gets FunctionBody -- whatever that line looks like (after the repair d88f322)
+//@tags C18 C17
+proof fn lemma_C18_first_body_line_gets_body_context(name: Identifier, decos: Seq<Expr>, args: CArguments, returns: Option<Box<Expr>>,
+        body: Seq<Stmt>, range: TextRange, content: Seq<char>, tl: usize, li: Seq<usize>)
+    requires ({ let s = lno(li, tsv(tr_start(range))) as usize;
+                1 <= s <= last_sig_ln(s, args, returns, li) < tl && first_body_ln(body, li) == Some(tl as int) }),
+        spec_func_ctx(name, decos, args, returns, body, range, content, tl, li) is Some,
+    ensures match spec_func_ctx(name, decos, args, returns, body, range, content, tl, li) { Some(CtxV::Func(f)) => !f.in_signature, _ => false },
+{
+    lemma_C18_cursor_on_first_body_line_gets_body_context(name, decos, args, returns, body, range, content, tl, li);
+}
+/// C18: the def line of a test / fixture always gets FunctionSignature (given the last signature element does not end above it)
+//@tags C18
+proof fn lemma_C18_def_line_gets_signature_context(name: Identifier, decos: Seq<Expr>, args: CArguments, returns: Option<Box<Expr>>,
+        body: Seq<Stmt>, range: TextRange, content: Seq<char>, li: Seq<usize>)
+    requires ({ let s = lno(li, tsv(tr_start(range))) as usize;
+                1 <= s <= last_sig_ln(s, args, returns, li)
+                && spec_func_ctx(name, decos, args, returns, body, range, content, s, li) is Some }),
+    ensures ({ let s = lno(li, tsv(tr_start(range))) as usize;
+               match spec_func_ctx(name, decos, args, returns, body, range, content, s, li) { Some(CtxV::Func(f)) => f.in_signature, _ => false } }),
+{
+    reveal(op_sig_end);
+    let s = lno(li, tsv(tr_start(range))) as usize;
+    lemma_C18_sig_end_not_before_def_line(s as int, last_sig_ln(s, args, returns, li), first_body_ln(body, li), lines_v(content));
+}
 
 // ---- vacuity guards: each of these must FAIL ---------------------------------------------------------------
 /// a keyword-only parameter is NOT among the declared names
